@@ -75,31 +75,39 @@ def pages_of(case):
 class C16(verif.Spec):
     prop = "C16"
     comp = "export"
-    lean_modules = ["ZvbiModel.Props.C16", "ZvbiModel.Props.C16Html", "ZvbiModel.Props.C16Ppm", "ZvbiModel.Props.C16Font"]
+    lean_modules = ["ZvbiModel.Props.C16", "ZvbiModel.Props.C16Html", "ZvbiModel.Props.C16Ppm", "ZvbiModel.Props.C16Font",
+                    "ZvbiModel.Props.C16HtmlInst", "ZvbiModel.Props.C16Xpm", "ZvbiModel.Props.C16PrintNT"]
     harness = "export_harness"
     harness_link_lib = True
     timeout_per_case = 5.0
-    partial_note = ("export write layer, vbi_print_page_region (table mode), the text export module, the HTML export module (exp-html.c, without links) "
-                    "and the PPM writer (header, sizes, call sequence; pixel values symbolic) and the byte runs of the two region renderers are modelled "
-                    "and proved (incl. region_equals_full with symbolic pixel values); png/xpm encoders, fonts and palettes are not modelled: target "
+    partial_note = ("export write layer, vbi_print_page_region (table mode; non-table mode modelled statement by statement with bounds proved, its "
+                    "documented output is an open statement), the text export module, the HTML export module (exp-html.c, without links; incl. the "
+                    "instance state that survives an export: html_export_idempotent), the PPM writer and the XPM writer (header, colour table, row "
+                    "quoting, footer, exact byte count; pixel values symbolic) and the byte runs of the two region renderers are modelled and proved "
+                    "(incl. region_equals_full with symbolic pixel values); the png encoder (libpng), fonts and palettes are not modelled: target "
                     "agreement and bounds for them are judged by the oracle on the real code; the ANSI control sequences of the text module are the "
                     "model's transcription, tied to the code by correspondence")
     assumptions = ["html module: no cell has the link attribute (vbi_resolve_link is not modelled); iconv to the page charset yields one byte or fails",
+                   "xpm module: e->network is NULL (no network name in the title), opaque cells for the pixel comparison of the harness",
                    "iconv is a stateless function of the UCS-2 code that writes at most the space it is given (no BOM, no //TRANSLIT)",
                    "rowstride is -1 or a multiple of the pixel size with rowstride >= width * cell width * pixel size; canvas has the documented size",
                    "the region lies inside the page (documented precondition of the draw functions; the print function checks it itself)",
                    "sizes stay below SIZE_MAX/2 (overflow branches of the grow functions are not modelled)",
                    "glibc: realloc(p,0) frees; vsnprintf never returns < 0 for %s"]
     trusted_base = ["harness/export_harness.c + lean/Driver/Export.lean (correspondence: per-op offset/capacity/target trace of the write layer, "
-                    "print output bytes, canonical digest of the written byte runs of the renderers, byte-exact HTML documents, PPM header + size)",
-                    "translate/gen_export_html.py: Generated/ExportHtmlCfg.lean flags (H1 / H2 repaired?) come from probing the compiled code",
+                    "print output bytes (table and non-table mode), canonical digest of the written byte runs of the renderers, byte-exact HTML documents "
+                    "(new object and one object reused: htmlnew / htmlrun), PPM header + size, XPM header + palette + footer + size)",
+                    "translate/gen_export_html.py: Generated/ExportHtmlCfg.lean flags (H1 / H2 / G1 repaired? free_styles resets the object state?) come from probing the compiled code",
                     "translate/gen_export.py: Generated/ExportCfg.lean flags (F14 / F12 / F27a / F27b repaired?) come from probing the compiled code",
                     "fault injection in the harness (realloc limit inside _vbi_grow_vector_capacity, fopencookie / RLIMIT_FSIZE sinks) is used "
                     "for correspondence only: the property does not quantify over allocation / write failure, so such cases are never judged "
                     "by the oracle, and cases where the model predicts an abort (F26) are not run"]
-    open_statements = []
+    open_statements = ["Zvbi.Props.C16PrintNT.print_nt_documented_full: the documented output of vbi_print_page_region in non-table mode "
+                       "(outside the wording of C16, which names the table mode): the model is statement by statement and byte-exact against the "
+                       "code, bounds and faults are proved (print_nt_bounded); missing: the refinement proof to the text specification (one-row "
+                       "regions stated formally; several rows need the pending-spaces loop invariant and a decision about the deviations N1 N2)"]
     rule = ("cases from corpus + seeded generators (synthetic exporters with fault injection; random pages with enlarged, concealed, "
-            "DRCS cells; attribute- and colour-heavy pages for the html module; print / draw / export / htmlexp / ppmexp ops); non-trivial = the implementation produced at least one non-reject output")
+            "DRCS cells; attribute- and colour-heavy pages for the html module; one html export object reused for several exports / targets; print / draw / export / htmlexp / htmlnew / htmlrun / ppmexp / xpmexp ops); non-trivial = the implementation produced at least one non-reject output")
 
     def __init__(self):
         self._outlen = {}
@@ -221,6 +229,9 @@ class C16(verif.Spec):
             ops.append("export " + rng.choice(MODULES))
         if wellformed and rng.random() < 0.25:
             ops.append("ppmexp %d" % rng.randrange(2))
+        if wellformed and rng.random() < 0.3:
+            ops.append("xpmexp %d %d %d %d %d" % (rng.randrange(2), rng.randrange(2), rng.randrange(2), rng.choice([0x100, 0x1FF, 0x899, 1, 0x123]),
+                                                   rng.choice([0, 1, 0x3F7F, 0x79])))
         return ops
 
     def gen_htmlexp(self, rng, pg=None):
@@ -247,6 +258,31 @@ class C16(verif.Spec):
                     ops.append("cell %d %d 0x%x %d %d %d %d 3" % (r, c, rng.choice(chars) if rng.random() < 0.9 else rng.randrange(0x10000),
                                                                  rng.choice([0, 0, 0, 0, 1, 2, 3, 4, 5, 6, 7]), fl, rng.choice(cols_fg), rng.choice(cols_bg)))
         for _ in range(rng.randrange(1, 4)): ops.append(self.gen_htmlexp(rng))
+        return ops
+
+    def gen_html_reuse_case(self, rng):
+        """ONE html export object (htmlnew) used for several exports (htmlrun: alloc / size query + mem / stdio / file), as applications
+        do; before each htmlrun the same page and options are exported by a new object (htmlexp) as the reference the oracle compares with"""
+        rows, cols = rng.choice([(1, 1), (1, 2), (2, 5), (3, 8), (6, 12), (25, 40)])
+        ops = ["page %d %d 0x%x" % (rows, cols, rng.choice([0x20, 0x41, 0x41]))]
+        cols_fg = [rng.randrange(8) for _ in range(rng.choice([1, 2, 3]))]
+        cols_bg = [rng.randrange(8) for _ in range(rng.choice([1, 2, 3]))]
+        def cell(r, c):
+            return "cell %d %d 0x%x %d %d %d %d 3" % (r, c, rng.choice([0x41, 0x42, 0x20, 0x3C, 0xE9, 0x20AC, 0xEE21]), rng.choice([0, 0, 0, 1, 4]),
+                                                     rng.choice([0, 0, 1, 2, 4, 8, 16]), rng.choice(cols_fg), rng.choice(cols_bg))
+        dens = rng.choice([0.3, 1.0])
+        for r in range(rows):
+            for c in range(cols):
+                if rng.random() < dens and r * cols + c < 60: ops.append(cell(r, c))
+        g = rng.choice([35, 35, 46, 0x2588])
+        color, header, reveal = (1 if rng.random() < 0.85 else 0), rng.randrange(2), rng.randrange(2)
+        ops.append("htmlnew %d %d %d %d" % (g, color, header, reveal))
+        for _ in range(rng.randrange(2, 6)):
+            if rng.random() < 0.3: ops.append(cell(rng.randrange(rows), rng.randrange(cols)))
+            font, pgno, subno, screen = rng.choice(HTML_FONTS), rng.choice([0x100, 0x1FF, 0x899]), rng.choice([0, 1, 0x3F7F]), rng.randrange(8)
+            ops.append("htmlexp %d %d %d %d %d %d %d %d" % (font, g, color, header, reveal, pgno, subno, screen))
+            for _ in range(rng.choice([1, 1, 2])):
+                ops.append("htmlrun %s %d %d %d %d" % (rng.choice(["mem", "mem", "alloc", "fp", "file"]), font, pgno, subno, screen))
         return ops
 
     def gen_g1_case(self, rng):
@@ -300,6 +336,10 @@ class C16(verif.Spec):
         for _ in range(3): cases.append(self.gen_f14_case(rng))
         for _ in range(60 * N): cases.append(self.gen_html_case(rng))
         for _ in range(2): cases.append(self.gen_g1_case(rng))
+        for _ in range(40 * N): cases.append(self.gen_html_reuse_case(rng))
+        # the smallest reuse case: one coloured cell, size query + export with one object (Props/C16HtmlInst html_export_reuse_counterexample)
+        cases.append(["page 1 1 0x41", "cell 0 0 0x41 0 0 3 4 3", "htmlnew 35 1 0 0", "htmlexp 0 35 1 0 0 256 0 0", "htmlrun mem 0 256 0 0",
+                      "htmlrun alloc 0 256 0 0"])
         for w in ("H1", "H1"): cases.append(self.gen_html_known(rng, w))
         for g in (60, 62, 38, 0x13C, 0x226): cases.append(self.gen_html_known(rng, "H2", g))
         # F12 shapes (repaired): NULL buffer size query; empty write into a NULL buffer
@@ -310,7 +350,8 @@ class C16(verif.Spec):
         for _ in range(120):
             base = rng.choice(["begin mem 4 10 10", "putc 65", "write 4142", "puts null", "printf 41", "direct 4 4142", "end", "flush",
                                "page 25 40 0x20", "cell 0 0 0x41 0 0 7 0 3", "drcs 3 1", "print UTF-8 10 0 0 1 1",
-                               "draw vt rgba -1 0 0 1 1 1 1", "draw cc pal8 -1 0 0 1 1", "export text", "consts"]).split()
+                               "draw vt rgba -1 0 0 1 1 1 1", "draw cc pal8 -1 0 0 1 1", "export text", "consts",
+                               "htmlnew 35 1 1 0", "htmlrun mem 0 256 0 0", "htmlrun alloc 1 511 1 3", "xpmexp 1 1 1 256 0"]).split()
             k = rng.random()
             if k < 0.3 and len(base) > 1: base[rng.randrange(1, len(base))] = rng.choice(["x", "-7", "999999999", "4g", "", "0x"])
             elif k < 0.5: base.append("1")
@@ -374,7 +415,26 @@ class C16(verif.Spec):
         if len(out) != len(case):
             return "output count %d != ops %d" % (len(out), len(case))
         begin, ops = None, []
+        pgver, hopts, href = 0, None, {}
         for (i, t, pg), line in zip(pages_of(case), out):
+            if t[0] in ("page", "cell", "drcs", "probe", "probehtml"): pgver += 1
+            if t[0] == "htmlnew":
+                hopts = t[1:5] if line == "ok htmlnew" else None
+                continue
+            if t[0] == "htmlexp" and line.startswith("ok ") and line != "ok fail" and len(t) == 9:
+                href[(pgver, t[1], t[2], t[3], t[4], t[5], t[6], t[7], t[8])] = unhx(line.split()[2])
+            if t[0] == "htmlrun" and line.startswith("ok") and hopts is not None and pg is not None and len(t) == 6:
+                if line == "ok fail": return "html: export with a reused object failed"
+                f = line.split(); need, n, data = int(f[1]), int(f[2]), unhx(f[3])
+                key = (pgver, t[2], hopts[0], hopts[1], hopts[2], hopts[3], t[3], t[4], t[5])
+                if need != n:
+                    return "html: one export object, size query says %d, the export that follows has %d bytes" % (need, n)
+                if key in href and data != href[key]:
+                    return "html: export with a reused object differs from the export of the same page with a new object"
+                href.setdefault(key, data)
+                w = self.oracle_html(pg, ["htmlexp", t[2], hopts[0], hopts[1], hopts[2], hopts[3], t[3], t[4], t[5]], "ok %d %s" % (n, f[3]))
+                if w: return w
+                continue
             if t[0] == "begin" and line == "ok begin": begin, ops = case[i], []
             elif t[0] == "end" and begin and line.startswith("ok "):
                 w = self.oracle_write(begin, ops, line); begin = None
@@ -384,6 +444,20 @@ class C16(verif.Spec):
                 if line.startswith("ok DISAGREE"): return "export targets disagree: " + line[12:]
             elif t[0] in ("print", "printnt") and line.startswith("ok"):
                 if "OVERRUN" in line: return "vbi_print_page_region wrote more than the buffer size"
+                if t[0] == "printnt" and pg is not None:
+                    size, col, row, w, h = [int(x) for x in t[2:7]]
+                    ret = int(line.split()[1]); data = unhx(line.split()[2])
+                    if ret > size: return "vbi_print_page_region returned more than the buffer size"
+                    if col < 0 or row < 0 or col + w > pg.cols or row + h > pg.rows:
+                        if ret != 0: return "vbi_print_page_region accepted a region outside the page"
+                    elif h == 1 and w >= 1 and all(pg.get(row, c)[1] == 0 for c in range(col, col + w)):
+                        # documented: one row, no enlarged characters: every character of the segment, blanks included
+                        codec = FORMATS[t[1]]
+                        exp = b"".join(encode_char(pg.get(row, c)[0] if pg.get(row, c)[0] < 0xE600 else 0x20, codec) for c in range(col, col + w))
+                        if len(exp) <= size:
+                            if data != exp and not any(encode_char(pg.get(row, c)[0], codec)[:1] == b"@" for c in range(col, col + w)):
+                                return "printnt: one-row output differs from the row's characters"
+                        elif ret != 0: return "printnt: buffer too small but nonzero result"
                 if t[0] == "print" and pg is not None:
                     size, col, row, w, h = [int(x) for x in t[2:7]]
                     ret = int(line.split()[1]); data = unhx(line.split()[2])
@@ -408,6 +482,9 @@ class C16(verif.Spec):
                 if hdr != b"P6 %d %d 255\n" % (cw * pg.cols, lines * pg.rows): return "ppm: header is not P6 <width> <height> 255"
                 if n != len(hdr) + 3 * cw * pg.cols * lines * pg.rows: return "ppm: size is not header + 3 * width * height"
                 if f[3] != "px=1": return "ppm: pixels are not the rendered rows in R G B order"
+            elif t[0] == "xpmexp" and line.startswith("ok") and pg is not None:
+                w = self.oracle_xpm(pg, t, line)
+                if w: return w
             elif t[0] == "htmlexp" and line.startswith("ok") and pg is not None:
                 w = self.oracle_html(pg, t, line)
                 if w: return w
@@ -449,6 +526,31 @@ class C16(verif.Spec):
                 exp += encode_char(u2, codec)
             exp += b"\n"
         if data != exp: return "text export (control=%d): output differs from the page text" % ctl
+        return None
+
+    def oracle_xpm(self, pg, t, line):
+        """the xpm module, read the way an XPM reader does (independent of the Lean model): values line, 40 palette lines with distinct
+        codes none of which can end a C string, <height> image lines of <width> codes (harness field px: also the pixels), footer with
+        the extension block; the size is header + height * (width + 4) + footer"""
+        aspect, transp, titled, pgno, subno = [int(x) for x in t[1:6]]
+        if line == "ok fail": return "xpm export failed"
+        f = line.split(); n = int(f[1]); hdr = unhx(f[2][4:]); ftr = unhx(f[3][4:])
+        cw, lines = (16, 26 if aspect else 13) if pg.cols < 40 else (12, 20 if aspect else 10)
+        W, H = cw * pg.cols, lines * pg.rows
+        title = b"" if not titled else (b"Closed Caption" if pgno < 0x100 else
+                                        ("Teletext Page %3x" % pgno + ("" if subno == 0x3F7F else ".%x" % subno)).encode())
+        m = re.fullmatch(rb'/\* XPM \*/\nstatic char \*image\[\] = \{\n/\* width height ncolors chars_per_pixel \*/\n"(\d+) (\d+) 40 1( XPMEXT)?",\n'
+                         rb'/\* colors \*/\n((?:"[^"\\\n] c (?:#[0-9A-F]{6}|None)",\n){40})/\* pixels \*/\n', hdr)
+        if not m: return "xpm: header / colour table malformed"
+        if (int(m.group(1)), int(m.group(2))) != (W, H): return "xpm: width / height in the header are not those of the page"
+        if not m.group(3): return "xpm: XPMEXT missing in the values line although an extension block follows"
+        pal = m.group(4).split(b"\n")[:40]
+        if len(set(l[1] for l in pal)) != 40: return "xpm: colour codes are not distinct"
+        if [i for i, l in enumerate(pal) if l.endswith(b'None",')] != ([8] if transp else []): return "xpm: transparent colour entry"
+        want = (b'"XPMEXT title ' + title + b'",\n' if title else b"") + b'"XPMEXT software verif",\n"XPMENDEXT"\n};\n'
+        if ftr != want: return "xpm: footer / extension block"
+        if n != len(hdr) + H * (W + 4) + len(ftr): return "xpm: size is not header + height * (width + 4) + footer"
+        if f[4] != "px=1": return "xpm: image lines are not the rendered rows (quoting, colour codes, line selection)"
         return None
 
     def oracle_html(self, pg, t, line):
